@@ -218,7 +218,7 @@ def model_line(case, floats):
                           case.get("ro", False)]]
     elif op == "run":
         v = case.get("version")
-        body = ["run", [fl, env, [] if not v else [v["name"], v["text"]], sx_cmd(case["root"]), case["argv"]]]
+        body = ["run", [fl, env, [] if not v else [v["name"], v["text"], bool(v.get("last"))], sx_cmd(case["root"]), case["argv"]]]
     elif op == "sentence":
         t = case.get("target")
         body = ["sentence", [fl, env, [sx_decl(d) for d in case["decls"]], case["spec"], case["argv"],
